@@ -87,7 +87,7 @@ def apply_inject(M, api):
         M.s[api[1]] = api[2]
         M.thumb = bool((M.s['cpsr'] >> 5) & 1)
         return True
-    if api == 'swap_registers':
+    if api in ('swap_registers', 'swap_cpsr'):
         return True                 # a register file replaced by a deep copy of itself is the same register file
     if api == 'take_data_abort':
         from vf.ref.machine import Abort
